@@ -15,6 +15,11 @@ package main
 // large work-done messages with error reports (rejected input, unknown step) and with each other,
 // always over `split`.
 //
+// Some of the overlapping calls (bulk rounds, and a fifth of the overlapping generated v3 sessions)
+// carry an input CBOR cannot encode (a func or a channel inside the map): that Execute must fail on
+// its own while writing its work-start, and every other pending Execute must still get its own
+// result.
+//
 // A finding carries the whole session (plugin, calls with inputs, rounds, delays, transport, seed) as
 // its detail; `harness atpsession -replay <finding or session json>` re-runs that session.
 //
@@ -390,7 +395,14 @@ func atpxBulkSpec(idx int, rnd *rand.Rand, seed int64) *atpxSpec {
 			} else if c == 1 {
 				kind = 60 + rnd.Intn(40) // and something that fails
 			}
+			if c >= 2 && rnd.Intn(6) == 0 {
+				kind = 100 // an input CBOR cannot encode: this Execute fails while writing its work-start
+			}
 			switch {
+			case kind == 100:
+				call.V = hx.StrAny([2]*hx.Val{hx.Str("uid"), hx.Str(run)}, [2]*hx.Val{hx.Str("size"), hx.Int("int64", 16)},
+					[2]*hx.Val{hx.Str("extra"), hx.Opaque(6 + rnd.Intn(2))}) // a func / a channel
+				call.Delay = 200 + rnd.Intn(2500)
 			case kind < 45: // 1-8 KB
 				call.V = hx.StrAny([2]*hx.Val{hx.Str("uid"), hx.Str(run)}, [2]*hx.Val{hx.Str("size"), hx.Int("int64", int64(1024+rnd.Intn(7*1024)))})
 			case kind < 60: // small
@@ -445,10 +457,13 @@ type atpxExpect struct {
 	Data  string // canonical
 }
 
-func atpxReference(ref *schema.CallableSchema, c atpxCall) (e atpxExpect, ok bool) {
+// atpxReference computes what Execute has to return. An input that CBOR cannot encode (a channel,
+// a func ...) never reaches the server: the client fails that Execute while writing its work-start
+// (in-process CallStep rejects such a value as well); unsent reports that case.
+func atpxReference(ref *schema.CallableSchema, c atpxCall) (e atpxExpect, unsent bool) {
 	norm, err := cborNorm(c.Input)
 	if err != nil {
-		return e, false
+		return atpxExpect{Err: true}, true
 	}
 	r := hx.Guard(func() hx.Result {
 		id, data, err := ref.CallStep(context.Background(), c.RunID, c.Step, norm)
@@ -468,7 +483,7 @@ func atpxReference(ref *schema.CallableSchema, c atpxCall) (e atpxExpect, ok boo
 		// the server recovers a panicking step and reports a step-fatal error
 		e = atpxExpect{Err: true}
 	}
-	return e, true
+	return e, false
 }
 
 func atpxObserved(res atp.ExecutionResult) atpxExpect {
@@ -487,6 +502,7 @@ type atpxSessionResult struct {
 	errs     int
 	chunks   int
 	pieces   int
+	unsent   int
 }
 
 func atpxRunSession(sp *atpxSpec, timeout time.Duration) (out atpxSessionResult) {
@@ -497,13 +513,9 @@ func atpxRunSession(sp *atpxSpec, timeout time.Duration) (out atpxSessionResult)
 	find := func(format string, args ...any) { out.findings = append(out.findings, fmt.Sprintf(format, args...)) }
 	ref := sp.build()
 	expected := make([]atpxExpect, len(calls))
+	unsent := make([]bool, len(calls))
 	for i, c := range calls {
-		e, ok := atpxReference(ref, c)
-		if !ok {
-			find("internal: input of call %d is not CBOR-encodable", i)
-			return
-		}
-		expected[i] = e
+		expected[i], unsent[i] = atpxReference(ref, c)
 	}
 
 	var c2sR io.ReadCloser
@@ -675,8 +687,8 @@ func atpxRunSession(sp *atpxSpec, timeout time.Duration) (out atpxSessionResult)
 	}
 	failing := 0
 	for i := 0; i < stopAt; i++ {
-		if expected[i].Err {
-			failing++
+		if expected[i].Err && !unsent[i] {
+			failing++ // a failure the server sees
 		}
 	}
 	select {
@@ -704,6 +716,9 @@ func atpxRunSession(sp *atpxSpec, timeout time.Duration) (out atpxSessionResult)
 		want := expected[i]
 		if want.Err {
 			out.errs++
+		}
+		if unsent[i] {
+			out.unsent++
 		}
 		if got != want {
 			what := "differs from the in-process result"
@@ -813,6 +828,15 @@ func atpxCmd(a Args) {
 		pattern := []string{"serial", "overlap", "waves"}[g.g.R.Intn(3)]
 		transport := []string{"pipe", "chunked", "split"}[g.g.R.Intn(3)]
 		v1 := g.g.R.Intn(5) == 0
+		if !v1 && pattern != "serial" && len(calls) >= 2 && g.g.R.Intn(5) == 0 {
+			// one of the overlapping calls cannot even be written
+			c := &calls[1+g.g.R.Intn(len(calls)-1)]
+			if c.V != nil && c.V.Kind == "m" {
+				c.V.M = append(c.V.M, [2]*hx.Val{hx.Str("zz-unencodable"), hx.Opaque(6 + g.g.R.Intn(2))})
+			} else {
+				c.V = hx.StrAny([2]*hx.Val{hx.Str("uid"), hx.Str(c.RunID)}, [2]*hx.Val{hx.Str("zz-unencodable"), hx.Opaque(7)})
+			}
+		}
 		jobs = append(jobs, &atpxSpec{Idx: i, Stream: "generated", Plugin: p, Calls: calls, Pattern: pattern, Transport: transport, V1: v1, Seed: a.Seed*1000003 + int64(i)})
 	}
 	// the bulk stream: large work-done messages overlapping error reports over the split transport
@@ -862,6 +886,7 @@ func atpxCmd(a Args) {
 		s.stats["executes-expected-error"] += r.errs
 		s.stats["chunks"] += r.chunks
 		s.stats["split-pieces"] += r.pieces
+		s.stats["executes-unencodable-input"] += r.unsent
 		if j.Stream == "bulk" {
 			s.stats["bulk:executes"] += r.calls
 			s.stats["bulk:rounds"] += len(j.Rounds)
